@@ -87,9 +87,6 @@ class SuperOperator(BasisManaged):
         # Set the currently used basis
         cb = self.manager.get_current_basis()
         self.set_current_basis(cb)
-        # unless it is the basis outside any context
-        if cb != 0:
-            self.manager.register_with_basis(cb,self)
             
         self._data_initialized = False
         
@@ -110,6 +107,12 @@ class SuperOperator(BasisManaged):
                 raise Exception("`data` has to be `square` "+
                                 "four-dimensional matrix")
             self.dim = data.shape[0]
+
+        # unless it is the basis outside any context, the superoperator is
+        # registered with the current basis; only now, so that a refused
+        # construction leaves nothing behind for the context to transform
+        if cb != 0:
+            self.manager.register_with_basis(cb,self)
       
 
     def apply(self, oper, copy=True):
